@@ -107,7 +107,7 @@ class Model:
             node = par
         return True
     def set_step(self, step):
-        self.ans.set_step(step); self.notes = []; self.lc = []; self.resolutions = []
+        self.ans.set_step(step); self.notes = []; self.lc = []; self.resolutions = []; self.exited_all = []
 
     # scripted answers; an anonymous head has no user callbacks (the director keeps them out of resolutions)
     def a_select(self, node):
@@ -328,6 +328,7 @@ class Model:
     def named(self, node): return self.named_[node]
     def exit(self, node):
         kd = self.kind(node)
+        self.exited_all.append(node)
         if kd == 'L':
             self.lc.append(('exit', node)); return
         if kd == 'O':
